@@ -44,9 +44,15 @@ impl<K: Clone + Eq + Hash, V> LruTimeCache<K, V> {
     /// Retrieves a mutable reference to the value stored under `key`, or `None` if the key doesn't exist.
     pub fn get_mut(&mut self, key: &K) -> Option<&mut V> {
         let now = Instant::now();
+        let ttl = self.ttl;
 
         match self.map.raw_entry_mut().from_key(key) {
             hashlink::linked_hash_map::RawEntryMut::Occupied(mut occupied) => {
+                // An entry that has outlived its ttl is treated as absent. It is not refreshed and
+                // stays in place, so that `remove_expired_values` still reports it.
+                if occupied.get().1 + ttl < now {
+                    return None;
+                }
                 occupied.get_mut().1 = now;
                 occupied.to_back();
                 Some(&mut occupied.into_mut().0)
